@@ -6,7 +6,7 @@ use palette::convert::IntoColorUnclamped;
 use palette::encoding;
 use palette::num::{FromScalarArray, IntoScalarArray, PartialCmp};
 use palette::white_point::D65;
-use palette::{Clamp, Darken, Hsl, Hsluv, Hsv, Hwb, IsWithinBounds, Lab, Lch, Lchuv, Lighten, Luv, Mix, Oklab, Oklch, Saturate, ShiftHue, Xyz, Yxy};
+use palette::{Clamp, ClampAssign, LightenAssign, Darken, Hsl, Hsluv, Hsv, Hwb, IsWithinBounds, Lab, Lch, Lchuv, Lighten, Luv, Mix, Oklab, Oklch, Saturate, ShiftHue, Xyz, Yxy};
 use pvmon::conv_table as ct;
 use pvmon::gen;
 use pvmon::judge;
@@ -475,6 +475,14 @@ macro_rules! masks_and_ops_impl {
         lanewise!("clamp_lab", TLab, |k| TLab::new(S::f(a[k].d() * 150.0 - 20.0), S::f(b[k].d() * 300.0 - 150.0), S::f(c[k].d() * 300.0 - 150.0)), |v: TLab<V>| v.clamp(), |c: TLab<S>, _k| c.clamp(), 0.0);
         lanewise!("clamp_hsv", THsv, |k| THsv::new(S::f(a[k].d() * 720.0 - 180.0), b[k], c[k]), |v: THsv<V>| v.clamp(), |c: THsv<S>, _k| c.clamp(), 0.0);
         lanewise!("clamp_hwb", THwb, |k| THwb::new(S::f(a[k].d() * 720.0 - 180.0), b[k], c[k]), |v: THwb<V>| v.clamp(), |c: THwb<S>, _k| c.clamp(), 4.0 * ulp);
+        // in-place forms and types with a lower-bound-only component (chroma)
+        lanewise!("clamp_lch", TLch, |k| TLch::new(S::f(a[k].d() * 150.0 - 20.0), S::f(b[k].d() * 250.0 - 50.0), S::f(c[k].d() * 720.0 - 180.0)), |v: TLch<V>| v.clamp(), |c: TLch<S>, _k| c.clamp(), 0.0);
+        lanewise!("clamp_assign_lch", TLch, |k| TLch::new(S::f(a[k].d() * 150.0 - 20.0), S::f(b[k].d() * 250.0 - 50.0), S::f(c[k].d() * 720.0 - 180.0)), |mut v: TLch<V>| { v.clamp_assign(); v }, |c: TLch<S>, _k| c.clamp(), 0.0);
+        lanewise!("clamp_assign_oklch", TOklch, |k| TOklch::new(S::f(a[k].d() * 1.5 - 0.2), S::f(b[k].d() - 0.3), S::f(c[k].d() * 720.0 - 180.0)), |mut v: TOklch<V>| { v.clamp_assign(); v }, |c: TOklch<S>, _k| c.clamp(), 0.0);
+        lanewise!("clamp_assign_srgb", TSrgb, |k| TSrgb::new(a[k], b[k], c[k]), |mut v: TSrgb<V>| { v.clamp_assign(); v }, |c: TSrgb<S>, _k| c.clamp(), 0.0);
+        lanewise!("clamp_assign_hwb", THwb, |k| THwb::new(S::f(a[k].d() * 720.0 - 180.0), b[k], c[k]), |mut v: THwb<V>| { v.clamp_assign(); v }, |c: THwb<S>, _k| c.clamp(), 4.0 * ulp);
+        lanewise!("lighten_assign_lch", TLch, |k| TLch::new(S::f(a[k].d() * 100.0), S::f(b[k].d() * 100.0), S::f(c[k].d() * 360.0)), |mut v: TLch<V>| { v.lighten_assign(vf); v }, |x: TLch<S>, k| x.lighten(f[k]), 4.0 * ulp);
+        lanewise!("lighten_fixed_assign_hwb", THwb, |k| THwb::new(S::f(a[k].d() * 360.0), S::f(b[k].d() * 0.5), S::f(c[k].d() * 0.5)), |mut v: THwb<V>| { v.lighten_fixed_assign(vf); v }, |x: THwb<S>, k| x.lighten_fixed(f[k]), 4.0 * ulp);
         lanewise!("mix_srgb", TSrgb, |k| TSrgb::new(a[k], b[k], c[k]), |v: TSrgb<V>| v.mix(TSrgb::<V>::new(vb, vc, va), vf), |x: TSrgb<S>, k| x.mix(TSrgb::new(b[k], c[k], a[k]), f[k]), 4.0 * ulp);
         lanewise!("mix_hsv", THsv, |k| THsv::new(S::f(a[k].d() * 360.0), b[k], c[k]), |v: THsv<V>| v.mix(THsv::<V>::new(vb * V::splat(360.0), vc, va), vf), |x: THsv<S>, k| x.mix(THsv::<S>::new(b[k] * (360.0 as S), c[k], a[k]), f[k]), 64.0 * ulp);
         lanewise!("lighten_lab", TLab, |k| TLab::new(S::f(a[k].d() * 100.0), S::f(b[k].d() * 100.0), c[k]), |v: TLab<V>| v.lighten(vf), |x: TLab<S>, k| x.lighten(f[k]), 4.0 * ulp);
@@ -498,7 +506,7 @@ fn masks(ctx: &Ctx, report: &mut Report) {
     }
     let mon = Monitor::new(
         mname,
-        "wide::{f32x4, f32x8, f64x2, f64x4}: PartialCmp (lt, lt_eq, gt, gt_eq, eq, neq) + Select + LazySelect + mask and/or/not/xor give, in every lane, what the scalar comparison and `if` give; BoolMask::is_true = all lanes, is_false = no lane, on mixed masks; packing/unpacking is the identity; is_within_bounds on a SIMD colour and on slices of SIMD colours (lanes leaving the bounds at different elements) equals the scalar answers lane by lane; clamp, mix, lighten, darken_fixed, saturate, shift_hue, + and * with lane-wise different factors equal the scalar operator per lane (bit-exact or within a few ulp); distinct = (operation, vector type, mask shape)",
+        "wide::{f32x4, f32x8, f64x2, f64x4}: PartialCmp (lt, lt_eq, gt, gt_eq, eq, neq) + Select + LazySelect + mask and/or/not/xor give, in every lane, what the scalar comparison and `if` give; BoolMask::is_true = all lanes, is_false = no lane, on mixed masks; packing/unpacking is the identity; is_within_bounds on a SIMD colour and on slices of SIMD colours (lanes leaving the bounds at different elements) equals the scalar answers lane by lane; clamp and clamp_assign (Srgb, Lab, Hsv, Hwb, Lch, Oklch), mix, lighten, lighten_assign, lighten_fixed_assign, darken_fixed, saturate, shift_hue, + and * with lane-wise different factors equal the scalar operator per lane (bit-exact or within a few ulp); distinct = (operation, vector type, mask shape)",
     );
     let n = ctx.n(4000, 2_000_000);
     let res = par(4, |t| {
